@@ -209,13 +209,27 @@ func vstub_os_File_Write(f *os.File, p []byte) (int, error) {
 		k := len(p) / 2
 		if k > 0 {
 			vfStep()
-			h.node.data = append(h.node.data, p[:k]...)
+			vfWriteAt(h, p[:k])
 		}
 		return k, vfErrIO
 	}
 	vfStep()
-	h.node.data = append(h.node.data, p...)
+	vfWriteAt(h, p)
 	return len(p), nil
+}
+
+// vfWriteAt writes at the position of the handle (a file opened without O_TRUNC keeps what lies behind the written part)
+func vfWriteAt(h *vfHandle, p []byte) {
+	d := h.node.data
+	for i, c := range p {
+		if h.pos+i < len(d) {
+			d[h.pos+i] = c
+		} else {
+			d = append(d, c)
+		}
+	}
+	h.node.data = d
+	h.pos += len(p)
 }
 func vstub_os_File_Close(f *os.File) error { return nil }
 func vstub_os_File_ReadFrom(f *os.File, r io.Reader) (int64, error) {
@@ -341,14 +355,21 @@ func vfEq(a, b []byte) bool {
 
 // scenarios: 0 in place (a.js -> a.js), 1 separate output, 2 in place through a symlink (l.js -> a.js, output a.js),
 // 3 bundle of two files onto the first of them, 4 bundle to a separate file, 5 sync copy of an unknown type,
-// 6 bundle of two files onto the second of them
+// 6 bundle of two files onto the second of them, 7 sync copy onto itself through an alias (link lo.txt -> other.txt).
+// Optionally (symbolic) the destination of scenarios 1 and 4 exists already with longer content, and an unrelated
+// a.js.bak exists next to a.js
 func vfScenario(n int) (t Task, inputs map[string][]byte, wantDst string, want []byte, ok bool) {
 	a, b := vfContent(n, "fa"), vfContent(n, "fb")
 	vfPut("a.js", a)
 	vfPut("b.js", b)
 	vfPut("other.txt", []byte("keep"))
 	inputs = map[string][]byte{"a.js": a, "b.js": b, "other.txt": []byte("keep")}
-	switch vChoice("scenario", 7) {
+	if vBool("prebak") {
+		vfPut("a.js.bak", []byte("user backup"))
+		inputs["a.js.bak"] = []byte("user backup")
+	}
+	predst := vBool("predst")
+	switch vChoice("scenario", 8) {
 	case 0:
 		t = Task{".", []string{"a.js"}, "a.js", false}
 		want, ok = vfRefStub(a)
@@ -357,6 +378,9 @@ func vfScenario(n int) (t Task, inputs map[string][]byte, wantDst string, want [
 		t = Task{".", []string{"a.js"}, "out/a.js", false}
 		want, ok = vfRefStub(a)
 		wantDst = "out/a.js"
+		if predst {
+			vfPut("out/a.js", []byte("old and longer content"))
+		}
 	case 2:
 		vfLink("l.js", "a.js")
 		t = Task{".", []string{"l.js"}, "a.js", false}
@@ -370,6 +394,14 @@ func vfScenario(n int) (t Task, inputs map[string][]byte, wantDst string, want [
 		t = Task{".", []string{"a.js", "b.js"}, "bundle.js", false}
 		want, ok = vfRefStub(append(append(append([]byte(nil), a...), ";\n"...), b...))
 		wantDst = "bundle.js"
+		if predst {
+			vfPut("bundle.js", []byte("old and longer content"))
+		}
+	case 7:
+		vfLink("lo.txt", "other.txt")
+		t = Task{".", []string{"lo.txt"}, "other.txt", true}
+		want, ok = []byte("keep"), true
+		wantDst = "other.txt"
 	case 6:
 		t = Task{".", []string{"a.js", "b.js"}, "b.js", false}
 		want, ok = vfRefStub(append(append(append([]byte(nil), a...), ";\n"...), b...))
@@ -430,10 +462,18 @@ func VerifMinifyTask(n int) {
 			continue
 		}
 		nd, _ := vfResolve(name)
-		vAssert(nd != nil && vfEq(nd.data, data), "no other file is modified")
+		if !(nd != nil && vfEq(nd.data, data)) {
+			if name == "a.js.bak" && wantDst == "a.js" {
+				vKnown("C19-F63") // recorded finding: an unrelated <dst>.bak is overwritten by the backup rename and removed afterwards
+			}
+			vFail("no other file is modified")
+		}
 	}
 	for name := range vfFiles {
-		if strings.HasSuffix(name, ".bak") {
+		if strings.HasSuffix(name, ".bak") && inputs[name] == nil {
+			if t.sync && name == t.dst+".bak" {
+				vKnown("C19-F64") // recorded finding: a sync copy onto its own source (through an alias) returns before the backup is removed
+			}
 			vFail("no backup is left behind") // F38 (fixed): in place through a symbolic link left <link>.bak behind
 		}
 	}
@@ -446,6 +486,7 @@ func VerifMinifyTask(n int) {
 func VerifMinifyCrash(n int) {
 	vfSetup()
 	t, inputs, wantDst, want, _ := vfScenario(n)
+	vAssume(vfFiles["out/a.js"] == nil && vfFiles["bundle.js"] == nil) // a pre-existing separate destination is not an input: nothing to lose
 	vfCrashAt = vInt("crashat", 1, 24)
 	vfCrashAt = vConcrete(vfCrashAt)
 	vfCrashCheck = func() {
@@ -454,9 +495,17 @@ func VerifMinifyCrash(n int) {
 			orig := nd != nil && vfEq(nd.data, data)
 			inBak := vfInBackup(t, name, data)
 			newOut := name == wantDst && nd != nil && vfEq(nd.data, want)
-			vAssert(orig || inBak || newOut, "at the kill point the content of an input is present nowhere on disk")
-			if name != wantDst {
-				vAssert(orig, "a file that is only read was modified")
+			if !(orig || inBak || newOut) {
+				if name == "a.js.bak" && wantDst == "a.js" {
+					vKnown("C19-F63")
+				}
+				vFail("at the kill point the content of an input is present nowhere on disk")
+			}
+			if name != wantDst && !orig {
+				if name == "a.js.bak" && wantDst == "a.js" {
+					vKnown("C19-F63")
+				}
+				vFail("a file that is only read was modified")
 			}
 		}
 		vReach("crashed")
